@@ -384,6 +384,7 @@ func schedRefresh(p *SchedProg) (string, int) {
 		return "C17|" + err.Error(), 0
 	}
 	e.bringUpAll()
+	e.cc.noRefreshAfterSwap = true
 	pk := e.readyPickers()
 	n := p.NPick
 	if n < 2 {
